@@ -9,7 +9,10 @@ def run(prog, rec, tier):
         getattr(C, part)()
     B = b64_rules.B64Rules(prog, rec)
     B.validator_decoder()
-    keep = ('R17.a', 'R17.b', 'R17.c', 'R17.d', 'R17.e', 'R17.f', 'R17.g', 'R15.f', 'R12.d', 'R02.f', 'R16.a', 'R16.b', 'R16.v', 'R16.u')
+    # exit status reflects the outcome only if the operation's own result does: result == (verification returned 0)
+    from .driver_rules import DriverRules
+    DriverRules(prog, rec, tier).reader()
+    keep = ('R12.a', 'R17.a', 'R17.b', 'R17.c', 'R17.d', 'R17.e', 'R17.f', 'R17.g', 'R15.f', 'R12.d', 'R02.f', 'R16.a', 'R16.b', 'R16.v', 'R16.u')
     rec.obls = [o for o in rec.obls if o.rule in keep]
     rec.extra['explanation'] = (
         'The option parser is interpreted over every sequence of options (getopt_long forks over the option table read from the code, with '
